@@ -17,6 +17,12 @@ def run(tier, seed):
                        os.path.join(d, "MutexProtoNoRecheck.cfg"), timeout=600, expect="violation")
     if not r["violated"]:
         raise vlib.Broken("the no-recheck variant of MutexProto is not rejected: the properties are vacuous")
+    vlib.tlc_check(chk, "RecMutexCond: recursive layer of the mutex (owner, nesting counter) with the release / re-acquisition of a condition wait as coded, exhaustive",
+                   os.path.join(d, "RecMutexCond.tla"), os.path.join(d, "RecMutexCondMC.cfg"), timeout=300)
+    r = vlib.tlc_check(chk, "RecMutexCond with the wait releasing by unlock_no_recursion (must be violated: returns without the lock)",
+                       os.path.join(d, "RecMutexCond.tla"), os.path.join(d, "RecMutexCondKeepOwner.cfg"), timeout=300, expect="violation")
+    if not r["violated"]:
+        raise vlib.Broken("the keep-owner variant of RecMutexCond is not rejected: the invariants are vacuous")
     vlib.history_check(chk, "d_sync", ["mutex"], "H_Mutex", quick, seed, what="mutex history is not a history of a linearizable (recursive) lock")
     chk.assumptions += ["serialized mode explores sequentially consistent interleavings of the hooked atomic operations",
                         "scenario scripts follow a discipline under which a correct implementation terminates; a run that ends in deadlock/stuck/budget is reported as a progress violation"]
